@@ -21,8 +21,91 @@ pub struct Case {
     pub got: String,
 }
 
+/// Files that may already lie beside the golden file; which of them a case starts with is a
+/// function of the case (a hash of its bytes), so a replay sees the same directory.
+const NEIGHBOURS: [&str; 11] = [
+    "golden.txt.actual",
+    "golden.txt.new",
+    "golden.txt~",
+    "golden.txt.orig",
+    "golden.txt.tmp",
+    "golden.txt.bak",
+    "golden.actual",
+    ".golden.txt.swp",
+    "other.txt",
+    "golden.txt.d/inner.txt",
+    "golden.txt.actual/inside.txt",
+];
+
+fn neighbours(c: &Case) -> Vec<(String, Vec<u8>)> {
+    let mut h: u64 = 0xcbf29ce484222325;
+    let mut feed = |b: &[u8]| {
+        for x in b {
+            h ^= *x as u64;
+            h = h.wrapping_mul(0x100000001b3);
+        }
+        h ^= 0xff;
+        h = h.wrapping_mul(0x100000001b3);
+    };
+    feed(c.file.as_deref().unwrap_or(b"\x00absent"));
+    feed(c.env_new.as_deref().unwrap_or(b"\x00unset"));
+    feed(c.env_assert.as_deref().unwrap_or(b"\x00unset"));
+    feed(c.got.as_bytes());
+    let mask = if (h >> 40) % 8 == 0 { 0 } else { h >> 8 };
+    NEIGHBOURS
+        .iter()
+        .enumerate()
+        .filter(|(k, n)| (mask >> k) & 1 == 1 && !(n.starts_with("golden.txt.actual/") && (mask & 1) == 1))
+        .map(|(k, n)| (n.to_string(), if (mask >> (20 + k)) & 1 == 1 { c.got.as_bytes().to_vec() } else { format!("kept: {}\r\n", n).into_bytes() }))
+        .collect()
+}
+
+/// every entry below `dir` except the golden file: (relative name, bytes, mtime); a directory is
+/// listed with a trailing `/`
+fn snapshot(dir: &Path, golden: &Path) -> Vec<(String, Vec<u8>, Option<SystemTime>)> {
+    fn walk(base: &Path, d: &Path, golden: &Path, out: &mut Vec<(String, Vec<u8>, Option<SystemTime>)>) {
+        let mut es: Vec<_> = match std::fs::read_dir(d) {
+            Ok(rd) => rd.filter_map(|e| e.ok()).map(|e| e.path()).collect(),
+            Err(_) => return,
+        };
+        es.sort();
+        for p in es {
+            if p == golden {
+                continue;
+            }
+            let rel = p.strip_prefix(base).unwrap_or(&p).to_string_lossy().to_string();
+            let mt = std::fs::symlink_metadata(&p).ok().and_then(|m| m.modified().ok());
+            if p.is_dir() {
+                out.push((format!("{}/", rel), Vec::new(), None));
+                walk(base, &p, golden, out);
+            } else {
+                out.push((rel, std::fs::read(&p).unwrap_or_default(), mt));
+            }
+        }
+    }
+    let mut out = Vec::new();
+    walk(dir, dir, golden, &mut out);
+    out
+}
+
+type Snap = Vec<(String, Vec<u8>, Option<SystemTime>)>;
+
+fn strip(s: &Snap) -> Vec<(String, Vec<u8>)> {
+    s.iter().map(|(n, b, _)| (n.clone(), b.clone())).collect()
+}
+
+fn times_differ(a: &Snap, b: &Snap) -> bool {
+    a.len() != b.len() || a.iter().zip(b.iter()).any(|(x, y)| x.0 != y.0 || x.2 != y.2)
+}
+
 #[derive(Clone, Debug, PartialEq)]
 pub struct Obs {
+    /// the rest of the directory: before, after Golden::new, after Golden::assert
+    dir0: Vec<(String, Vec<u8>)>,
+    dir1: Vec<(String, Vec<u8>)>,
+    dir2: Vec<(String, Vec<u8>)>,
+    dir_touched1: bool,
+    dir_touched2: bool,
     new: u8,
     file1: Option<Vec<u8>>,
     touched1: bool,
@@ -69,20 +152,31 @@ fn panic_text(e: &Box<dyn std::any::Any + Send>) -> String {
 }
 
 pub fn observe(sc: &Scratch, c: &Case) -> Obs {
-    let p = sc.dir.join("golden.txt");
-    let _ = std::fs::remove_file(&p);
+    // a directory of its own for every case: the golden file and what already lies beside it
+    let d = sc.dir.join("case");
+    let _ = std::fs::remove_dir_all(&d);
+    std::fs::create_dir_all(&d).unwrap();
+    let p = d.join("golden.txt");
+    for (name, bytes) in neighbours(c) {
+        let np = d.join(&name);
+        std::fs::create_dir_all(np.parent().unwrap()).unwrap();
+        std::fs::write(&np, bytes).unwrap();
+        age(&np);
+    }
     if let Some(b) = &c.file {
         std::fs::write(&p, b).unwrap();
         age(&p);
     }
+    let snap0 = snapshot(&d, &p);
     let before = look(&p);
     set_env(&c.env_new);
     let pc = p.clone();
     let r = std::panic::catch_unwind(move || okane_golden::Golden::new(pc));
     std::env::remove_var(VAR);
     let after1 = look(&p);
+    let snap1 = snapshot(&d, &p);
     let touched1 = after1.1 != before.1 || after1.0.is_some() != before.0.is_some();
-    let mut o = Obs { new: 0, file1: after1.0.clone(), touched1, assert: 0, file2: None, touched2: false, detail: String::new() };
+    let mut o = Obs { dir0: strip(&snap0), dir1: strip(&snap1), dir2: strip(&snap1), dir_touched1: times_differ(&snap0, &snap1), dir_touched2: false, new: 0, file1: after1.0.clone(), touched1, assert: 0, file2: None, touched2: false, detail: String::new() };
     let g = match r {
         Err(e) => {
             o.new = 3;
@@ -104,6 +198,9 @@ pub fn observe(sc: &Scratch, c: &Case) -> Obs {
         let r = std::panic::catch_unwind(std::panic::AssertUnwindSafe(|| g.assert(&got)));
         std::env::remove_var(VAR);
         let fin = look(&p);
+        let snap2 = snapshot(&d, &p);
+        o.dir2 = strip(&snap2);
+        o.dir_touched2 = times_differ(&snap1, &snap2);
         o.touched2 = fin.1 != mid.1 || fin.0.is_some() != mid.0.is_some();
         o.file2 = fin.0;
         match r {
@@ -124,9 +221,17 @@ fn opt_bytes(b: &Option<Vec<u8>>) -> String {
     coq::opt(b.as_ref().map(|x| coq::bytes_term(x)))
 }
 
+fn dir_term(d: &[(String, Vec<u8>)]) -> String {
+    coq::list(d.iter().map(|(n, b)| format!("({}, {})", coq::bytes_term(n.as_bytes()), coq::bytes_term(b))))
+}
+
+fn dir_json(d: &[(String, Vec<u8>)]) -> Value {
+    Value::Array(d.iter().map(|(n, b)| json!([n, jbytes(&Some(b.clone()))])).collect())
+}
+
 fn term(c: &Case, o: &Obs) -> String {
     format!(
-        "One {} {} {} {} (Obs {} {} {} {} {} {})",
+        "One {} {} {} {} (Obs {} {} {} {} {} {}) (DirObs {} {} {} {} {})",
         opt_bytes(&c.file),
         opt_bytes(&c.env_new),
         opt_bytes(&c.env_assert),
@@ -136,7 +241,12 @@ fn term(c: &Case, o: &Obs) -> String {
         coq::bool_(o.touched1),
         o.assert,
         opt_bytes(&o.file2),
-        coq::bool_(o.touched2)
+        coq::bool_(o.touched2),
+        dir_term(&o.dir0),
+        dir_term(&o.dir1),
+        dir_term(&o.dir2),
+        coq::bool_(o.dir_touched1),
+        coq::bool_(o.dir_touched2)
     )
 }
 
@@ -165,8 +275,12 @@ fn replay(c: &Case, o: &Obs) -> Value {
            "impl": {"new": new_s, "file_after_new": jbytes(&o.file1),
                     "touched_by_new": o.touched1,
                     "assert": assert_s,
-                    "file_after_assert": jbytes(&o.file2), "touched_by_assert": o.touched2, "detail": o.detail},
-           "reproduce": "write `file` to a path (or leave it absent), UPDATE_GOLDEN=env_new, Golden::new(path); UPDATE_GOLDEN=env_assert, .assert(got)"})
+                    "file_after_assert": jbytes(&o.file2), "touched_by_assert": o.touched2, "detail": o.detail,
+                    "rest_of_directory_before": dir_json(&o.dir0),
+                    "rest_of_directory_after_new": if o.dir1 == o.dir0 { json!("unchanged") } else { dir_json(&o.dir1) },
+                    "rest_of_directory_after_assert": if o.dir2 == o.dir0 { json!("unchanged") } else { dir_json(&o.dir2) },
+                    "rest_of_directory_touched_by_new": o.dir_touched1, "rest_of_directory_touched_by_assert": o.dir_touched2},
+           "reproduce": "in an empty directory write the files of rest_of_directory_before and `file` as golden.txt (or leave it absent), UPDATE_GOLDEN=env_new, Golden::new(golden.txt); UPDATE_GOLDEN=env_assert, .assert(got); list the directory"})
 }
 
 fn from_json(v: &Value) -> Option<Case> {
@@ -247,6 +361,13 @@ fn emit(sh: &mut Shards, st: &mut Stats, sc: &Scratch, c: &Case, tag: &str) {
         count_big(st, "file", f);
     }
     count_big(st, "got", c.got.as_bytes());
+    st.count(&format!("directory:files beside the golden file before the call:{}", o.dir0.iter().filter(|(n, _)| !n.ends_with('/')).count().min(6)));
+    if o.dir0.iter().any(|(n, _)| n == "golden.txt.actual") {
+        st.count("directory:golden.txt.actual already there");
+    }
+    if o.dir0.iter().any(|(n, _)| n == "golden.txt.actual/") {
+        st.count("directory:golden.txt.actual is a directory");
+    }
     st.count(&format!("impl:new {}", ["ok", "err notfound", "err other", "panic"][o.new as usize]));
     st.count(&format!("impl:assert {}", ["not called", "returned", "comparison panic", "other panic"][o.assert as usize]));
     if let Some(f) = &c.file {
@@ -582,7 +703,7 @@ pub fn run(o: &Opts) {
         o.shards,
         "From Coq Require Import List NArith.\nFrom Okv Require Import Run.Classify_C20.\nImport ListNotations.\nOpen Scope N_scope.",
     );
-    st.rule = "a case = (golden file bytes or absent, UPDATE_GOLDEN at Golden::new, UPDATE_GOLDEN at Golden::assert, got); exhaustive content x got over {a, CR, LF} up to a bounded length with the file present and the variable unset, the same strings under every env/file state for short lengths, seeded random multi-line texts (LF, CRLF, lone CR, CRCRLF, LFCR separators; non-ASCII words; got derived from the content by normalising, re-adding CRLF, trimming, appending a newline, stripping CR, 0-2 character edits), large files and large got strings (4 KiB to 200 KiB, made of runs of one repeated unit: ASCII lines, CRLF lines, 2-, 3- and 4-byte characters) in which a 2-, 3- or 4-byte character, U+FEFF, a letter with a combining mark, CRLF, CR CRLF, two CRLF or a lone CR starts at every byte offset from one past its own length before to one byte after a multiple of 4096 / 8192 / 65536 (4096, 8192, 16384, 32768, 65536; the thorough tier adds 12288, 24576, 73728, 131072, 196608), with nothing, one unit, nine units or more than 8 KiB after it, under twelve operations in rotation (assert with got = the content normalised / as it is / differing only in the token at the offset / cut at the offset / plus a line feed; UPDATE_GOLDEN non-empty with a small file, an absent file, or a large file replaced by a got differing at the offset; set only at new or only at assert; empty; file absent), plus seeded random large texts of 1-3 such runs with got derived as above or by replacing one token / editing far from the tokens (long texts are written to the case files in a lossless run-length form computed from the bytes themselves and expanded inside Coq), + corpus; run on the real okane_golden::Golden against a scratch file; non-trivial = content and got at byte edit distance <= 2, or the file is absent, or UPDATE_GOLDEN is set (empty or not) at either call; distinct by the whole case".into();
+    st.rule = "a case = (golden file bytes or absent, UPDATE_GOLDEN at Golden::new, UPDATE_GOLDEN at Golden::assert, got); exhaustive content x got over {a, CR, LF} up to a bounded length with the file present and the variable unset, the same strings under every env/file state for short lengths, seeded random multi-line texts (LF, CRLF, lone CR, CRCRLF, LFCR separators; non-ASCII words; got derived from the content by normalising, re-adding CRLF, trimming, appending a newline, stripping CR, 0-2 character edits), large files and large got strings (4 KiB to 200 KiB, made of runs of one repeated unit: ASCII lines, CRLF lines, 2-, 3- and 4-byte characters) in which a 2-, 3- or 4-byte character, U+FEFF, a letter with a combining mark, CRLF, CR CRLF, two CRLF or a lone CR starts at every byte offset from one past its own length before to one byte after a multiple of 4096 / 8192 / 65536 (4096, 8192, 16384, 32768, 65536; the thorough tier adds 12288, 24576, 73728, 131072, 196608), with nothing, one unit, nine units or more than 8 KiB after it, under twelve operations in rotation (assert with got = the content normalised / as it is / differing only in the token at the offset / cut at the offset / plus a line feed; UPDATE_GOLDEN non-empty with a small file, an absent file, or a large file replaced by a got differing at the offset; set only at new or only at assert; empty; file absent), plus seeded random large texts of 1-3 such runs with got derived as above or by replacing one token / editing far from the tokens (long texts are written to the case files in a lossless run-length form computed from the bytes themselves and expanded inside Coq), + corpus; run on the real okane_golden::Golden against golden.txt in a scratch directory made for the case, in which up to eleven other entries already lie (golden.txt.actual, .new, ~, .orig, .tmp, .bak, golden.actual, .golden.txt.swp, other.txt, golden.txt.d/inner.txt, golden.txt.actual/ as a directory; which ones, and whether one holds the got string, is a function of the case; one case in eight starts with an empty directory): the whole directory (names, bytes, modification times, recursively) is listed before Golden::new, after it and after Golden::assert, and everything but golden.txt must be as it was, under every value of UPDATE_GOLDEN; non-trivial = content and got at byte edit distance <= 2, or the file is absent, or UPDATE_GOLDEN is set (empty or not) at either call; distinct by the whole case".into();
     st.assumptions.push("golden file content is valid UTF-8 (read_to_string's InvalidData error is outside the model); the directory of the golden file exists and is writable (the expect(\"Update golden failed\") panic is outside the model)".into());
     let sc = Scratch::new("c20");
     // corpus and replay
